@@ -7,6 +7,8 @@ use serde_json::{json, Value};
 use simcore::Rng;
 use std::collections::{BTreeMap, BTreeSet};
 use std::path::{Path, PathBuf};
+#[allow(unused_imports)]
+use syn;
 use std::sync::atomic::{AtomicBool, AtomicU64, Ordering};
 use std::sync::Mutex;
 
@@ -29,6 +31,11 @@ pub struct Workload {
     pub n_harvested: usize,
     /// name -> program indices
     pub by_name: BTreeMap<String, Vec<usize>>,
+    /// string literals found in the macro's own sources that look like
+    /// environment variable names / values: fault injection aimed at the
+    /// sites the code actually has ("buggify knows the fault sites")
+    pub src_env_names: Vec<String>,
+    pub src_env_values: Vec<String>,
 }
 
 impl Workload {
@@ -43,6 +50,93 @@ impl Workload {
             programs,
             n_harvested,
             by_name,
+            src_env_names: vec![],
+            src_env_values: vec![],
+        }
+    }
+
+    /// Scan the macro sources for string literals (see `src_env_names`).
+    pub fn harvest_literals(&mut self, repo: &Path) {
+        use syn::visit::Visit;
+        struct V {
+            lits: Vec<String>,
+        }
+        impl<'ast> Visit<'ast> for V {
+            fn visit_lit_str(&mut self, l: &'ast syn::LitStr) {
+                self.lits.push(l.value());
+            }
+            fn visit_macro(&mut self, m: &'ast syn::Macro) {
+                // literals inside macro invocations (format!, env!, option_env!, ...)
+                for tt in m.tokens.clone() {
+                    collect_lits(tt, &mut self.lits);
+                }
+            }
+        }
+        fn collect_lits(tt: proc_macro2::TokenTree, out: &mut Vec<String>) {
+            match tt {
+                proc_macro2::TokenTree::Literal(l) => {
+                    if let Ok(s) = syn::parse_str::<syn::LitStr>(&l.to_string()) {
+                        out.push(s.value());
+                    }
+                }
+                proc_macro2::TokenTree::Group(g) => {
+                    for t in g.stream() {
+                        collect_lits(t, out);
+                    }
+                }
+                _ => {}
+            }
+        }
+        let mut files = vec![];
+        fn walk(d: &Path, out: &mut Vec<std::path::PathBuf>) {
+            if let Ok(rd) = std::fs::read_dir(d) {
+                let mut es: Vec<_> = rd.flatten().map(|e| e.path()).collect();
+                es.sort();
+                for p in es {
+                    if p.is_dir() {
+                        walk(&p, out);
+                    } else if p.extension().map(|e| e == "rs").unwrap_or(false) {
+                        out.push(p);
+                    }
+                }
+            }
+        }
+        walk(&repo.join("entrait_macros/src"), &mut files);
+        let mut v = V { lits: vec![] };
+        for f in files {
+            if let Ok(text) = std::fs::read_to_string(&f) {
+                if let Ok(file) = syn::parse_file(&text) {
+                    v.visit_file(&file);
+                }
+            }
+        }
+        let mut names = BTreeSet::new();
+        let mut values = BTreeSet::new();
+        for l in v.lits {
+            let is_name = l.len() >= 3 && l.len() <= 40 && l.chars().all(|c| c.is_ascii_uppercase() || c.is_ascii_digit() || c == '_') && l.chars().next().map(|c| c.is_ascii_uppercase()).unwrap_or(false);
+            if is_name && !ENV_NAMES.contains(&l.as_str()) {
+                names.insert(l);
+            } else if !l.is_empty() && l.len() <= 16 && !l.contains(' ') && !l.contains('{') {
+                values.insert(l);
+            }
+        }
+        self.src_env_names = names.into_iter().take(24).collect();
+        self.src_env_values = values.into_iter().take(40).collect();
+    }
+
+    pub fn env_name(&self, rng: &mut Rng) -> String {
+        if !self.src_env_names.is_empty() && rng.chance(350) {
+            rng.pick(&self.src_env_names).clone()
+        } else {
+            rng.pick(&ENV_NAMES).to_string()
+        }
+    }
+
+    pub fn env_value(&self, rng: &mut Rng) -> String {
+        if !self.src_env_values.is_empty() && rng.chance(250) {
+            rng.pick(&self.src_env_values).clone()
+        } else {
+            rng.pick(&ENV_VALUES).to_string()
         }
     }
 }
@@ -76,8 +170,11 @@ pub fn gen_plan(rng: &mut Rng, w: &Workload) -> (Plan, Swarm) {
     let n_jobs = match rng.below(100) {
         0..=49 => rng.range(2, 6),
         50..=84 => rng.range(7, 16),
-        _ => rng.range(17, 40),
+        85..=97 => rng.range(17, 40),
+        // long sessions: state that only shows after many invocations in one process
+        _ => rng.range(80, 300),
     } as usize;
+    let long_session = n_jobs >= 80;
     // programs of this run: biased towards sharing identifiers
     let k = rng.range(1, (n_jobs as u64).min(8)) as usize;
     let mut chosen: Vec<usize> = vec![rng.below(w.programs.len() as u64) as usize];
@@ -113,12 +210,16 @@ pub fn gen_plan(rng: &mut Rng, w: &Workload) -> (Plan, Swarm) {
         };
         jobs.push(Job { prog, thread });
     }
-    let n_epochs = match rng.below(10) {
-        0..=6 => 1,
-        7..=8 => 2,
-        _ => 3,
-    }
-    .min(n_jobs);
+    let n_epochs = if long_session {
+        1
+    } else {
+        match rng.below(10) {
+            0..=6 => 1,
+            7..=8 => 2,
+            _ => 3,
+        }
+        .min(n_jobs)
+    };
     // contiguous split
     let mut cuts: Vec<usize> = (0..n_epochs - 1)
         .map(|_| rng.range(1, n_jobs as u64 - 1) as usize)
@@ -135,19 +236,16 @@ pub fn gen_plan(rng: &mut Rng, w: &Workload) -> (Plan, Swarm) {
         }
         let ejobs: Vec<Job> = jobs[start..end].to_vec();
         start = end;
-        let n_dec = (ejobs.len() * 14 + 8).min(400);
+        let n_dec = if long_session { 200 } else { (ejobs.len() * 14 + 8).min(400) };
         let mut decisions = Vec::with_capacity(n_dec);
         for _ in 0..n_dec {
-            decisions.push(gen_decision(rng, &swarm));
+            decisions.push(gen_decision(rng, &swarm, w));
         }
         let mut env = vec![];
         if rng.chance(600) {
             let n_env = rng.below(6);
             for _ in 0..n_env {
-                env.push((
-                    rng.pick(&ENV_NAMES).to_string(),
-                    rng.pick(&ENV_VALUES).to_string(),
-                ));
+                env.push((w.env_name(rng), w.env_value(rng)));
             }
         }
         epochs.push(Epoch {
@@ -166,7 +264,7 @@ pub fn gen_plan(rng: &mut Rng, w: &Workload) -> (Plan, Swarm) {
     (Plan { programs, epochs }, swarm)
 }
 
-fn gen_decision(rng: &mut Rng, s: &Swarm) -> Decision {
+fn gen_decision(rng: &mut Rng, s: &Swarm, w: &Workload) -> Decision {
     let r = rng.below(1000);
     let mut acc = s.switch;
     if r < acc {
@@ -179,12 +277,9 @@ fn gen_decision(rng: &mut Rng, s: &Swarm) -> Decision {
     acc += s.env;
     if r < acc {
         return if rng.chance(650) {
-            Decision::EnvSet(
-                rng.pick(&ENV_NAMES).to_string(),
-                rng.pick(&ENV_VALUES).to_string(),
-            )
+            Decision::EnvSet(w.env_name(rng), w.env_value(rng))
         } else {
-            Decision::EnvUnset(rng.pick(&ENV_NAMES).to_string())
+            Decision::EnvUnset(w.env_name(rng))
         };
     }
     acc += s.cwd;
